@@ -25,7 +25,7 @@ SPEC_NAMES = {"forall", "exists", "implies", "old", "has", "get", "result", "iff
               "card", "is_some", "the", "select", "store", "subset", "inrange", "cls_is", "same_obj", "let",
               "dom_eq", "unchanged", "nth", "Seq", "contains", "distinct", "sub", "count_in", "spec_call", "pre",
               "image_has", "inj", "keys_of", "ghost", "concat", "empty_seq", "isNone", "notNone", "eq", "view_of",
-              "kind_of", "elems", "as_list", "as_cls", "any_as"}
+              "kind_of", "elems", "as_list", "as_cls", "any_as", "allocated"}
 
 
 class Evaluator(Interp):
@@ -217,6 +217,14 @@ class Evaluator(Interp):
                 t = base.ty
             if t is TNone:
                 self.raise_exc("AttributeError")
+            if isinstance(t, TUnion) and all(isinstance(a, TRec) and a.fty(attr) is not None for a in t.alts):
+                # a field shared by every alternative of a union of records (InPort | OutPort .node / .offset)
+                ftys = [a.fty(attr) for a in t.alts]
+                if all(ft == ftys[0] for ft in ftys):
+                    term = t.alts[-1].get(t.proj(len(t.alts) - 1, base.term), attr)
+                    for i in reversed(range(len(t.alts) - 1)):
+                        term = z3.If(t.is_alt(i, base.term), t.alts[i].get(t.proj(i, base.term), attr), term)
+                    return SV(ftys[0], term)
             if isinstance(t, (TObj, TRec)):
                 return self.obj_getattr(base, attr, fr)
             if t is TAny or (isinstance(t, TObj) and self.w.get_class(t.cls).is_model and attr in ("model_dump_json", "model_dump")):
@@ -311,6 +319,9 @@ class Evaluator(Interp):
                     return v
             else:
                 if b:
+                    # a truthy optional is not None
+                    if isinstance(v, SV) and isinstance(v.ty, TOpt):
+                        return self.assume_wf(SV(v.ty.inner, acc(v.ty.val(v.term))))
                     return v
         return v
 
@@ -951,17 +962,56 @@ class Evaluator(Interp):
             raise Unsupported(f"call depth exceeded at {fi.qname}")
         self.notes.add(f"inlined body of {fi.qname}")
         try:
-            if fi.is_generator:
-                raise Unsupported(f"generator function {fi.qname}")
-            if fr.pure:
+            if fr.pure and not fi.is_generator:
                 return self.exec_pure_body(fi.node.body, nfr)
+            if fi.is_generator:
+                self.init_generator_frame(fi, nfr, self.cdb.contract_for(fi, recv_cls, args, kwargs))
             try:
                 self.exec_block(fi.node.body, nfr)
             except ReturnSig as r:
-                return r.val
-            return NONE
+                return nfr.env["_yielded"] if fi.is_generator else r.val
+            return nfr.env["_yielded"] if fi.is_generator else NONE
         finally:
             self.depth -= 1
+
+    def init_generator_frame(self, fi, nfr, con):
+        """A generator function is executed eagerly; the values it yields are collected in the
+        local `_yielded` (a sequence) which is what the call returns.  Laziness is not modelled."""
+        ety = None
+        if con is not None and con.returns is not None:
+            t = self.cdb.types.parse_ty(con.returns)
+            if isinstance(t, TSeq):
+                ety = t
+        if ety is None and fi.node.returns is not None:
+            t = self.cdb.types.ann_to_ty(fi.module, fi.node.returns)
+            if isinstance(t, TSeq):
+                ety = t
+        if ety is None:
+            raise Unsupported(f"generator function {fi.qname}: element type unknown (give `returns`)")
+        nfr.env["_yielded"] = self.mk_seq(TSeq(ety.elem), [])
+        self.notes.add("generator functions are executed eagerly: the call returns the sequence of yielded values")
+
+    def e_Yield(self, node, fr):
+        v = self.eval(node.value, fr) if node.value is not None else NONE
+        cur = fr.env["_yielded"]
+        fr.env["_yielded"] = self.seq_append(cur, self.coerce(v, cur.ty.elem).term)
+        return NONE
+
+    def seq_append(self, cur: SV, e) -> SV:
+        """cur + [e], with the pointwise consequences stated as hints for the solvers."""
+        new = seq_concat(cur.term, z3.Unit(e))
+        ln = z3.Length(cur.term)
+        j = self.bound("apj", z3.IntSort())
+        self.assume(z3.Length(new) == ln + 1)
+        self.assume(new[ln] == e)
+        self.assume(z3.ForAll([j], z3.Implies(z3.And(j >= 0, j < ln), new[j] == cur.term[j])))
+        return SV(cur.ty, new)
+
+    def e_YieldFrom(self, node, fr):
+        v = self.iter_to_seq(self.force(self.eval(node.value, fr), fr), fr)
+        cur = fr.env["_yielded"]
+        fr.env["_yielded"] = SV(cur.ty, seq_concat(cur.term, self.coerce(v, cur.ty).term))
+        return NONE
 
     def call_method(self, obj, name, args, kwargs, fr):
         f = self.getattr(obj, name, fr)
@@ -1143,6 +1193,12 @@ class Evaluator(Interp):
                 i = i + ln
             e = self.coerce(v, base.ty.elem).term
             new = seq_concat(z3.SubSeq(base.term, 0, i), z3.Unit(e), z3.SubSeq(base.term, i + 1, ln - i - 1))
+            # consequences of the definition, stated pointwise (hints: the sequence solvers are slow
+            # at deriving them from extract/concat)
+            j = self.bound("stj", z3.IntSort())
+            self.assume(z3.Length(new) == ln)
+            self.assume(new[i] == e)
+            self.assume(z3.ForAll([j], z3.Implies(z3.And(j >= 0, j < ln, j != i), new[j] == base.term[j])))
             return SV(base.ty, new)
         raise Unsupported(f"subscript store on {base}")
 
